@@ -46,17 +46,33 @@ def _case(draw: Any, args: dict) -> dict:
         private = draw(st.sampled_from([True, True, False])) if (i < n - 1 or start) else False
         name = ("_Priv" if private else "Pub") + str(i)
         mod = 1 if (two_mods and private and draw(st.booleans())) else 0
+        if mod == 1 and draw(st.booleans()):
+            # the same short name as a private class of the other module (core._Base / widgets._Base(core._Base))
+            others = [c["name"] for c in classes if c["private"] and c["mod"] == 0 and not any(x["name"] == c["name"] and x["mod"] == 1 for x in classes)]
+            if others:
+                name = draw(st.sampled_from(others))
         cand = [c for c in classes if not (c["mod"] == 0 and mod == 1)]  # module 1 never imports module 0 (no cycle)
         bases: list[str] = []
         for c in cand:
             if len(bases) < 3 and draw(st.sampled_from([True, True, False] if c["private"] else [True, False, False, False])):
-                bases.append(c["name"])
+                bases.append(key_of(c))
         if draw(st.booleans()):
             bases.reverse()
         methods = draw(st.lists(st.sampled_from(METHODS), min_size=1, max_size=4, unique=True))
         generic = (not private) and draw(st.integers(0, 9 if args.get("tier") != "thorough" else 3)) == 0
         classes.append({"name": name, "private": private, "bases": bases, "methods": methods, "mod": mod, "generic": generic})
+    for c in classes:  # (the explicit diamond above is written with plain names: normalise to keys)
+        c["bases"] = [b if ":" in b else f"0:{b}" for b in c["bases"]]
     return {"pkgname": pkgname, "classes": classes, "options": {"nc": False}}
+
+
+def key_of(c: dict) -> str:
+    return f"{c['mod']}:{c['name']}"
+
+
+def marker(c: dict) -> str:
+    """Name of the parameter that identifies the defining class of a method."""
+    return f"frm_{c['name'].lstrip('_')}{'b' if c['mod'] == 1 else ''}"
 
 
 def strategy(args: dict) -> st.SearchStrategy:
@@ -67,10 +83,11 @@ def build_python(classes: list[dict]) -> dict[str, type] | None:
     """Create the classes with type(); bases that make the MRO inconsistent are dropped (the case is repaired)."""
     built: dict[str, type] = {}
     for c in classes:
+        c["bases"] = [b if ":" in b else f"0:{b}" for b in c["bases"]]
         bases = [built[b] for b in c["bases"] if b in built]
         while True:
             try:
-                built[c["name"]] = type(c["name"], tuple(bases), {m: (lambda self: None) for m in c["methods"]})
+                built[key_of(c)] = type(key_of(c), tuple(bases), {m: (lambda self: None) for m in c["methods"]})
                 break
             except TypeError:
                 if not bases:
@@ -82,13 +99,23 @@ def build_python(classes: list[dict]) -> dict[str, type] | None:
 
 def render(case: dict) -> dict[str, str]:
     pk = case["pkgname"]
+    by_key = {key_of(c): c for c in case["classes"]}
+    names0 = {c["name"] for c in case["classes"] if c["mod"] == 0}
     mods: dict[int, list[str]] = {0: [], 1: []}
+    gen_keys = {key_of(x) for x in case["classes"] if x.get("generic")}
     for c in case["classes"]:
-        gen_names = {x["name"] for x in case["classes"] if x.get("generic")}
-        bases_src = [f"{b}[int]" if b in gen_names else b for b in c["bases"]] + (["Generic[TG]"] if c.get("generic") else [])
+        bases_src = []
+        for b in c["bases"]:
+            bc = by_key[b]
+            ref = bc["name"]
+            if c["mod"] == 0 and bc["mod"] == 1 and bc["name"] in names0:
+                ref = f"hier_b.{bc['name']}"  # same short name in both modules: module-qualified reference
+            bases_src.append(f"{ref}[int]" if b in gen_keys else ref)
+        if c.get("generic"):
+            bases_src.append("Generic[TG]")
         lines = [f"class {c['name']}" + (f"({', '.join(bases_src)})" if bases_src else "") + ":"]
         for m in c["methods"]:
-            lines.append(f"    def {m}(self, frm_{c['name'].lstrip('_')}: int) -> int:")
+            lines.append(f"    def {m}(self, {marker(c)}: int) -> int:")
             lines.append("        return 0")
             lines.append("")
         if not c["methods"]:
@@ -96,21 +123,27 @@ def render(case: dict) -> dict[str, str]:
         mods[c["mod"]].append("\n".join(lines))
     files = {f"{pk}/__init__.py": ""}
     names1 = [c["name"] for c in case["classes"] if c["mod"] == 1]
+    plain1 = [n for n in names1 if n not in names0]
     tv = "from typing import Generic, TypeVar\n\nTG = TypeVar(\"TG\")\n"
-    head0 = "from __future__ import annotations\n" + (f"from {pk}.hier_b import {', '.join(names1)}\n" if names1 else "") + tv
+    head0 = "from __future__ import annotations\n"
+    if names1:
+        head0 += f"from {pk} import hier_b\n"
+    if plain1:
+        head0 += f"from {pk}.hier_b import {', '.join(plain1)}\n"
+    head0 += tv
     files[f"{pk}/hier_a.py"] = head0 + "\n\n" + "\n\n\n".join(mods[0]) + "\n"
     if names1:
         files[f"{pk}/hier_b.py"] = "from __future__ import annotations\n" + tv + "\n\n" + "\n\n\n".join(mods[1]) + "\n"
     return files
 
 
-def reachable_private(by_name: dict[str, dict], c: dict) -> list[str]:
-    """Private ancestors reachable from c through private classes only (depth-first, as sets)."""
+def reachable_private(by_key: dict[str, dict], c: dict) -> list[str]:
+    """Keys of the private ancestors reachable from c through private classes only."""
     out: list[str] = []
 
     def go(x: dict) -> None:
         for b in x["bases"]:
-            bc = by_name[b]
+            bc = by_key[b]
             if bc["private"] and b not in out:
                 out.append(b)
                 go(bc)
@@ -119,14 +152,14 @@ def reachable_private(by_name: dict[str, dict], c: dict) -> list[str]:
     return out
 
 
-def dfs_definer(by_name: dict[str, dict], c: dict, m: str) -> str | None:
+def dfs_definer(by_key: dict[str, dict], c: dict, m: str) -> str | None:
     """The definer a depth-first, left-to-right walk over private bases meets first (tag for the open finding only)."""
     if m in c["methods"]:
-        return c["name"]
+        return key_of(c)
     for b in c["bases"]:
-        bc = by_name[b]
+        bc = by_key[b]
         if bc["private"]:
-            r = dfs_definer(by_name, bc, m)
+            r = dfs_definer(by_key, bc, m)
             if r:
                 return r
     return None
@@ -148,8 +181,9 @@ def judge(case: dict) -> dict:
     ss = StubSet(r["stubs"])
     for rel, e in ss.errors.items():
         discs.append(Discrepancy.make("stub_unparsable", rel, str(e), []))
-    by_name = {c["name"]: c for c in case["classes"]}
+    by_key = {key_of(c): c for c in case["classes"]}
     shared_two = False
+    same_short = len({c["name"] for c in case["classes"]}) < len(case["classes"])
     for c in case["classes"]:
         if c["private"]:
             # private classes are never declared
@@ -162,30 +196,30 @@ def judge(case: dict) -> dict:
             discs.append(Discrepancy.make("class_not_found_once", c["name"], f"{len(ss.find(c['name']))} declarations", []))
             continue
         rel, decl = hit
-        priv = reachable_private(by_name, c)
-        relevant = [c["name"], *priv]
-        mro = [k.__name__ for k in built[c["name"]].__mro__ if k.__name__ in relevant]
+        priv = reachable_private(by_key, c)
+        relevant = [key_of(c), *priv]
+        mro = [k.__name__ for k in built[key_of(c)].__mro__ if k.__name__ in relevant]
         expected: dict[str, str] = {}
         for m in METHODS:
             if m.startswith("_"):
                 continue
             for k in mro:
-                if m in by_name[k]["methods"]:
+                if m in by_key[k]["methods"]:
                     expected[m] = k
                     break
-        definers_per_method = {m: [k for k in priv if m in by_name[k]["methods"]] for m in expected}
+        definers_per_method = {m: [k for k in priv if m in by_key[k]["methods"]] for m in expected}
         if any(len(v) >= 2 for v in definers_per_method.values()):
             shared_two = True
         got = [d for d in decl.members if d.kind == "fun"]
         got_names = [d.python_name for d in got]
         tags_cls: list[str] = []
-        is_diamond = len(priv) != len(set(priv)) or any(sum(1 for k in relevant if a in by_name[k]["bases"]) >= 2 for a in priv)
+        is_diamond = any(sum(1 for k in relevant if a in by_key[k]["bases"]) >= 2 for a in priv)
         if is_diamond:
             tags_cls.append("inh:diamond")
         for m, definer in expected.items():
             cnt = got_names.count(m)
             tags = list(tags_cls)
-            dfs = dfs_definer(by_name, c, m)
+            dfs = dfs_definer(by_key, c, m)
             if dfs != definer:
                 tags.append("inh:dfs_vs_mro")
             if cnt != 1:
@@ -193,16 +227,16 @@ def judge(case: dict) -> dict:
                 continue
             d = got[got_names.index(m)]
             shown = [p.python_name for p in (d.params or [])]
-            want = f"frm_{definer.lstrip('_')}"
+            want = marker(by_key[definer])
             if shown != [want]:
                 discs.append(Discrepancy.make("wrong_definition_shown", f"{c['name']}.{m}", f"stub shows the definition with parameters {shown}, Python's MRO {mro} selects {definer} ({want})", tags))
         for extra in sorted(set(got_names) - set(expected)):
             discs.append(Discrepancy.make("unexpected_member", f"{c['name']}.{extra}", f"not a public method of the class or of its private ancestors {priv}", tags_cls))
         # superclass list
-        exp_sub = [b for b in c["bases"] if not by_name[b]["private"]]
+        exp_sub = [by_key[b]["name"] for b in c["bases"] if not by_key[b]["private"]]
         got_sub = [s[1] for s in decl.supers if s[0] == "named"]
         if got_sub != exp_sub:
-            sub_tags = tags_cls + (["inh:subscripted_base"] if any(by_name[b].get("generic") for b in exp_sub) else [])
+            sub_tags = tags_cls + (["inh:subscripted_base"] if any(by_key[b].get("generic") for b in c["bases"] if not by_key[b]["private"]) else [])
             discs.append(Discrepancy.make("sub_list_differs", c["name"], f"sub {got_sub} != public direct bases in source order {exp_sub}", sub_tags))
         sf = ss.files[rel]
         here = {d.name for d in sf.members}
@@ -211,11 +245,13 @@ def judge(case: dict) -> dict:
             if b not in here and b not in imported:
                 discs.append(Discrepancy.make("superclass_not_imported", f"{c['name']} sub {b}", "public superclass defined elsewhere is not imported", tags_cls))
         res["stats"].append(f"private_ancestors={min(len(priv), 3)}")
+    if same_short:
+        res["stats"].append("same_short_name_in_both_modules")
     if shared_two:
-        res["nontrivial"].append(repr([(c["name"], c["bases"], c["methods"]) for c in case["classes"]]))
+        res["nontrivial"].append(repr([(key_of(c), c["bases"], c["methods"]) for c in case["classes"]]))
         res["stats"].append("two_private_ancestors_share_a_method")
     if res["sample"] is None and shared_two:
-        res["sample"] = {"classes": [(c["name"], c["bases"], c["methods"]) for c in case["classes"]], "stub": next(iter(r["stubs"].values()))[:700]}
+        res["sample"] = {"classes": [(key_of(c), c["bases"], c["methods"]) for c in case["classes"]], "stub": next(iter(r["stubs"].values()))[:700]}
     return res
 
 
@@ -223,8 +259,8 @@ def candidates(case: dict) -> list[dict]:
     out = []
     cl = case["classes"]
     for i in range(len(cl) - 1, -1, -1):
-        name = cl[i]["name"]
-        rest = [dict(c, bases=[b for b in c["bases"] if b != name]) for j, c in enumerate(cl) if j != i]
+        k = key_of(cl[i])
+        rest = [dict(c, bases=[b for b in c["bases"] if b != k]) for j, c in enumerate(cl) if j != i]
         if rest:
             out.append({**case, "classes": rest})
     for i, c in enumerate(cl):
@@ -239,7 +275,7 @@ def run(ctx: Ctx) -> None:
     ctx.rule = (
         "hierarchies of 2-7 classes (private with probability 2/3, the last one public) in 1-2 modules, each with 0-3 earlier "
         "classes as bases (inconsistent MROs repaired) and 0-3 methods from a pool of 4 public names + 1 private name, so "
-        "overriding happens at every level; evaluations = public classes judged; non-trivial = hierarchy in which >=2 "
+        "overriding happens at every level; a private class of the second module may carry the short name of a private class of the first; evaluations = public classes judged; non-trivial = hierarchy in which >=2 "
         "private ancestors of a public class define the same method."
     )
     ctx.assumptions = [
